@@ -71,3 +71,6 @@ CFG = {
 
 CFG["level_extra"] = ('Continuity across a knot is proved for the rounded lookup: for t1 <= t_k <= t2 not further apart than the knot spacing, 0 <= r(t1) - r(t2) <= max(step_(k-1), step_k) + an explicit rounding term (<= 6e-17 m on the current tables), hence < 0.5 mm + 1e-15 m whenever neither touched segment is in the known class, and < 0.66 mm + 1e-15 m always (C18_knot_straddle, C18_half_mm_straddle_8ns, C18_straddle_lt_066_mm_8ns; table facts by computation over the regenerated tables).')
 CFG["level_extra"] = CFG["level_extra"] + ' The straddle theorems cover two lookups that touch at most two segments. The tabulated knot spacing is 8 ns only up to about 1e-21 s, so where a spacing is slightly below 8 ns two lookups exactly 8 ns apart could touch three segments if both fall in a window at most 1e-21 s wide; for that case only the sum bound C18_step_bound_partial is proved, and no generated case lies in such a window (it is neither proved impossible for binary64 times nor measured). The proved bound is < 0.5 mm + 1e-15 m.'
+
+# a run with fewer cases than half of what the quick tier generates today would be a (partly) vacuous differential
+CFG["min_cases"] = 9086
